@@ -385,19 +385,19 @@ pub struct CheckSpec {
 pub fn check_spec(id: &str) -> CheckSpec {
     let rule_pipeline = "cases = seeded (block, pre-state, config, fault plan, schedule) tuples run through the real pipeline under the simulator; a case is non-trivial if it had a re-execution, validation conflict, erroring attempt, sequential fallback, fired fault or did not complete; distinct = distinct abstract behaviour (per-tx #incarnations and #validations, abort kinds, fallback start, #commits) among non-trivial cases";
     match id {
-        "C01" => CheckSpec { id: "C01", runs_quick: 150_000, runs_thorough: 6_000_000, level: "exploration", rule: rule_pipeline },
-        "C02" => CheckSpec { id: "C02", runs_quick: 150_000, runs_thorough: 6_000_000, level: "exploration", rule: rule_pipeline },
-        "C03" => CheckSpec { id: "C03", runs_quick: 150_000, runs_thorough: 6_000_000, level: "exploration", rule: rule_pipeline },
-        "C04" => CheckSpec { id: "C04", runs_quick: 120_000, runs_thorough: 5_000_000, level: "fault_enumeration", rule: "cases = (even indices) seeded (block, pre-state, config, fault plan, schedule) tuples with 1-2 random error rules; (odd indices) systematic enumeration: consecutive cases share one generated block and walk through its fault plans in a fixed order - every database key the in-order reference reads (account, slot, code hash, block hash), every key only a stale attempt reads (reference with one predecessor removed), the fee recipient, crossed with persistent / fail-once / fail-at-second-call - 24 plans per block in the quick tier, 64 in the thorough tier, each under its own seeded schedule (see reach.case_groups for the split); all run through the real pipeline under the simulator; a case is non-trivial if it had a re-execution, validation conflict, erroring attempt, sequential fallback, fired fault or did not complete; distinct = distinct abstract behaviour (per-tx #incarnations and #validations, abort kinds, fallback start, #commits) among non-trivial cases" },
-        "C06" => CheckSpec { id: "C06", runs_quick: 80_000, runs_thorough: 3_000_000, level: "exploration", rule: "cases = seeded blocks (all profiles, all four delegated-safety policy combinations, a quarter on a persistently faulty database), each executed five ways: simulated parallel run, simulated parallel run with another worker count and schedule, min_parallel_txs above the block size, force_sequential, fallback_sequential() entry; non-trivial = a re-execution, erroring attempt, fallback or error result; distinct = distinct abstract behaviour" },
-        "C05" => CheckSpec { id: "C05", runs_quick: 150_000, runs_thorough: 6_000_000, level: "exploration", rule: rule_pipeline },
-        "C07" => CheckSpec { id: "C07", runs_quick: 120_000, runs_thorough: 5_000_000, level: "exploration", rule: rule_pipeline },
-        "C08" => CheckSpec { id: "C08", runs_quick: 120_000, runs_thorough: 5_000_000, level: "exploration", rule: rule_pipeline },
-        "C09" => CheckSpec { id: "C09", runs_quick: 120_000, runs_thorough: 5_000_000, level: "exploration", rule: rule_pipeline },
-        "C10" => CheckSpec { id: "C10", runs_quick: 120_000, runs_thorough: 5_000_000, level: "exploration", rule: rule_pipeline },
-        "C11" => CheckSpec { id: "C11", runs_quick: 120_000, runs_thorough: 5_000_000, level: "exploration", rule: rule_pipeline },
-        "C14" => CheckSpec { id: "C14", runs_quick: 120_000, runs_thorough: 5_000_000, level: "exploration", rule: rule_pipeline },
-        "C13" => CheckSpec { id: "C13", runs_quick: 120_000, runs_thorough: 5_000_000, level: "exploration", rule: rule_pipeline },
+        "C01" => CheckSpec { id: "C01", runs_quick: 300_000, runs_thorough: 6_000_000, level: "exploration", rule: rule_pipeline },
+        "C02" => CheckSpec { id: "C02", runs_quick: 300_000, runs_thorough: 6_000_000, level: "exploration", rule: rule_pipeline },
+        "C03" => CheckSpec { id: "C03", runs_quick: 300_000, runs_thorough: 6_000_000, level: "exploration", rule: rule_pipeline },
+        "C04" => CheckSpec { id: "C04", runs_quick: 250_000, runs_thorough: 5_000_000, level: "fault_enumeration", rule: "cases = (even indices) seeded (block, pre-state, config, fault plan, schedule) tuples with 1-2 random error rules; (odd indices) systematic enumeration: consecutive cases share one generated block and walk through its fault plans in a fixed order - every database key the in-order reference reads (account, slot, code hash, block hash), every key only a stale attempt reads (reference with one predecessor removed), the fee recipient, crossed with persistent / fail-once / fail-at-second-call - 24 plans per block in the quick tier, 64 in the thorough tier, each under its own seeded schedule (see reach.case_groups for the split); all run through the real pipeline under the simulator; a case is non-trivial if it had a re-execution, validation conflict, erroring attempt, sequential fallback, fired fault or did not complete; distinct = distinct abstract behaviour (per-tx #incarnations and #validations, abort kinds, fallback start, #commits) among non-trivial cases" },
+        "C06" => CheckSpec { id: "C06", runs_quick: 120_000, runs_thorough: 3_000_000, level: "exploration", rule: "cases = seeded blocks (all profiles, all four delegated-safety policy combinations, a quarter on a persistently faulty database), each executed five ways: simulated parallel run, simulated parallel run with another worker count and schedule, min_parallel_txs above the block size, force_sequential, fallback_sequential() entry; non-trivial = a re-execution, erroring attempt, fallback or error result; distinct = distinct abstract behaviour" },
+        "C05" => CheckSpec { id: "C05", runs_quick: 300_000, runs_thorough: 6_000_000, level: "exploration", rule: rule_pipeline },
+        "C07" => CheckSpec { id: "C07", runs_quick: 250_000, runs_thorough: 5_000_000, level: "exploration", rule: rule_pipeline },
+        "C08" => CheckSpec { id: "C08", runs_quick: 250_000, runs_thorough: 5_000_000, level: "exploration", rule: rule_pipeline },
+        "C09" => CheckSpec { id: "C09", runs_quick: 250_000, runs_thorough: 5_000_000, level: "exploration", rule: rule_pipeline },
+        "C10" => CheckSpec { id: "C10", runs_quick: 250_000, runs_thorough: 5_000_000, level: "exploration", rule: rule_pipeline },
+        "C11" => CheckSpec { id: "C11", runs_quick: 250_000, runs_thorough: 5_000_000, level: "exploration", rule: rule_pipeline },
+        "C14" => CheckSpec { id: "C14", runs_quick: 250_000, runs_thorough: 5_000_000, level: "exploration", rule: rule_pipeline },
+        "C13" => CheckSpec { id: "C13", runs_quick: 160_000, runs_thorough: 5_000_000, level: "exploration", rule: rule_pipeline },
         other => panic!("unknown check {other}"),
     }
 }
@@ -537,7 +537,7 @@ pub fn run_pipeline_check(check: &str, tier: Tier, seed: u64) -> i32 {
     }
     if check == "C10" {
         // C10 (b): concurrent cache-filling readers vs an in-order committer on the production views
-        let comp_runs = std::env::var("VERIF_RUNS").ok().and_then(|s| s.parse().ok()).unwrap_or(if tier == Tier::Quick { 100_000u64 } else { 5_000_000 });
+        let comp_runs = std::env::var("VERIF_RUNS").ok().and_then(|s| s.parse().ok()).unwrap_or(if tier == Tier::Quick { 200_000u64 } else { 5_000_000 });
         let (agg2, wall2, v2, k2, e2) = crate::statecomp::run_batch(tier, seed, comp_runs);
         merge_aggregates(&mut agg, agg2);
         wall += wall2;
@@ -545,7 +545,7 @@ pub fn run_pipeline_check(check: &str, tier: Tier, seed: u64) -> i32 {
         known_hits += k2;
         exit = exit.max(e2);
         // C10 (a): sequential history differential (no schedule; deterministic in (seed, idx))
-        let hist_runs = std::env::var("VERIF_RUNS").ok().and_then(|s| s.parse().ok()).unwrap_or(if tier == Tier::Quick { 60_000u64 } else { 3_000_000 });
+        let hist_runs = std::env::var("VERIF_RUNS").ok().and_then(|s| s.parse().ok()).unwrap_or(if tier == Tier::Quick { 100_000u64 } else { 3_000_000 });
         let case = |idx: u64| crate::histcomp::case_record(tier, seed, idx);
         let (agg3, wall3) = batch::run_batch(hist_runs, jobs(), 4, None, &case);
         let mut seen: Vec<String> = Vec::new();
